@@ -13,6 +13,8 @@ mod c14;
 mod c14_glue;
 mod c08;
 mod c08_compose;
+mod c08_multi;
+mod c08_names;
 mod c08_report;
 mod c09_e2e;
 mod c13;
